@@ -167,7 +167,11 @@ def z_factor_hallyarbrough(pressure: float, temperature: float) -> float:
             - (29.52 * t - 19.52 * t**2 + 9.16 * t**3) * y
             + (2.18 + 2.82 * t) * (90.7 * t - 242.2 * t**2 + 42.4 * t**3) * y ** (1.18 + 2.82 * t)
         )
-        y = y - fdum / dfdy
+        step = fdum / dfdy
+        # a full Newton step can leave (0, 1), where the next iterate is NaN: shorten it
+        while not 0 < y - step < 1:
+            step /= 2
+        y = y - step
     zfact = 0.06125 * pressure * t * np.exp(-1.2 * (1 - t) ** 2) / y
     return zfact
 
